@@ -33,6 +33,26 @@ func rawWrite(fd int, b byte) {
 	}
 }
 
+const blockedTaskTimeoutMs = 90000
+
+// waitReadable polls fd (raw system call, no Go-level synchronisation) until it is readable or
+// the timeout expires.
+func waitReadable(fd int, timeoutMs int) bool {
+	type pollfd struct {
+		fd      int32
+		events  int16
+		revents int16
+	}
+	p := pollfd{fd: int32(fd), events: 1}
+	for {
+		n, _, e := syscall.Syscall(syscall.SYS_POLL, uintptr(unsafe.Pointer(&p)), 1, uintptr(timeoutMs))
+		if e == syscall.EINTR {
+			continue
+		}
+		return e == 0 && n > 0
+	}
+}
+
 func rawRead(fd int) byte {
 	var buf [1]byte
 	for {
@@ -61,6 +81,23 @@ type Task struct {
 	// taken, up to softBudget of them.
 	softStride, softPhase, softBudget int
 	softCount, SoftTaken              int
+	// lockDepth > 0 while the task is inside a critical section of the instrumented library: it is
+	// then never parked (neither at soft nor at hard yield points), because the task released next
+	// could block inside the Go runtime on that lock and the simulation would deadlock.
+	lockDepth int
+}
+
+// NoteLocked / NoteUnlocked are the hooks behind verifyield.Locked() / Unlocked().
+func NoteLocked() {
+	if t := (*Task)(atomic.LoadPointer(&curTask)); t != nil {
+		t.lockDepth++
+	}
+}
+
+func NoteUnlocked() {
+	if t := (*Task)(atomic.LoadPointer(&curTask)); t != nil && t.lockDepth > 0 {
+		t.lockDepth--
+	}
 }
 
 // SoftCfg selects which of a task's soft yield points (statement boundaries of the instrumented
@@ -108,6 +145,9 @@ func SoftYield() {
 // Yield parks the calling task and lets the scheduler pick who runs next. It must only be
 // called from the task's own goroutine.
 func (t *Task) Yield() {
+	if t.lockDepth > 0 {
+		return
+	}
 	t.Yields++
 	rawWrite(t.sched.ctl[1], 'y')
 	rawRead(t.wake[0])
@@ -227,6 +267,9 @@ func (s *Sched) Run(fns []func(*Task)) []*Task {
 		}
 		atomic.StorePointer(&curTask, unsafe.Pointer(s.tasks[next]))
 		rawWrite(s.tasks[next].wake[1], 'g')
+		if !waitReadable(s.ctl[0], blockedTaskTimeoutMs) {
+			panic(fmt.Sprintf("sched: task %d did not reach a yield point within %d s: it is blocked on a synchronisation primitive (channel, sync.Cond, a lock taken in a way the instrumentation does not see) while another task is parked; the simulator does not model that", next, blockedTaskTimeoutMs/1000))
+		}
 		if st := rawRead(s.ctl[0]); st == 'd' {
 			done[next] = true
 			live--
